@@ -26,7 +26,11 @@ var Instrumented = false
 
 // Instance is one shared SlimTrie of a scenario family.
 type Instance struct {
-	Name     string
+	Name string
+	// Make builds a new, never-read instance (lazily computed state must be
+	// exposed to the very first concurrent calls); ST is one made by Make and
+	// warmed by the solo runs.
+	Make     func() *trie.SlimTrie
 	ST       *trie.SlimTrie
 	Keys     []string
 	Complete bool
@@ -72,9 +76,15 @@ func Instances(seed int64, thorough bool) []*Instance {
 	}
 	// 1. small complete
 	smallKeys := []string{"", "\x00", "\x0f\xf0", "\x0f\xff", "\xf0", "\xff\x00\x7f", "\xff\xff"}
-	out = append(out, &Instance{Name: "fresh-complete-small", ST: mustBuild(smallKeys, ids(len(smallKeys), 1), trie.Opt{Complete: trie.Bool(true)}), Keys: smallKeys, Complete: true, Typed: true, Small: true})
+	add := func(in *Instance) {
+		in.ST = in.Make()
+		out = append(out, in)
+	}
+	add(&Instance{Name: "fresh-complete-small", Make: func() *trie.SlimTrie {
+		return mustBuild(smallKeys, ids(len(smallKeys), 1), trie.Opt{Complete: trie.Bool(true)})
+	}, Keys: smallKeys, Complete: true, Typed: true, Small: true})
 	// 2. fresh default (filter) with de-duplicated values
-	out = append(out, &Instance{Name: "fresh-filter-dedup", ST: mustBuild(smallKeys, ids(len(smallKeys), 2), trie.Opt{}), Keys: smallKeys, Typed: true, Small: true})
+	add(&Instance{Name: "fresh-filter-dedup", Make: func() *trie.SlimTrie { return mustBuild(smallKeys, ids(len(smallKeys), 2), trie.Opt{}) }, Keys: smallKeys, Typed: true, Small: true})
 	// 3. fresh complete with a 257-bit root and short nodes
 	{
 		sc := h.ScaffoldBigRoot(sigma, "in").Apply([]string{"", "\x00\xff", "\xff"})
@@ -83,18 +93,20 @@ func Instances(seed int64, thorough bool) []*Instance {
 		keys := append(append([]string{}, sc.Keys...), filler...)
 		sort.Strings(keys)
 		keys = uniqS(keys)
-		st := mustBuild(keys, ids(len(keys), 1), trie.Opt{Complete: trie.Bool(true)})
-		out = append(out, &Instance{Name: "fresh-complete-big-short", ST: st, Keys: keys, Complete: true, Typed: true})
+		mk := func() *trie.SlimTrie { return mustBuild(keys, ids(len(keys), 1), trie.Opt{Complete: trie.Bool(true)}) }
+		add(&Instance{Name: "fresh-complete-big-short", Make: mk, Keys: keys, Complete: true, Typed: true})
 		// 4. loaded from current bytes
-		buf, err := st.Marshal()
+		buf, err := mk().Marshal()
 		if err != nil {
 			panic(err)
 		}
-		st2, _ := trie.NewSlimTrie(encode.I32{}, nil, nil)
-		if err := st2.Unmarshal(buf); err != nil {
-			panic(err)
-		}
-		out = append(out, &Instance{Name: "loaded-current-big-short", ST: st2, Keys: keys, Complete: true, Typed: true})
+		add(&Instance{Name: "loaded-current-big-short", Make: func() *trie.SlimTrie {
+			st2, _ := trie.NewSlimTrie(encode.I32{}, nil, nil)
+			if err := st2.Unmarshal(append([]byte{}, buf...)); err != nil {
+				panic(err)
+			}
+			return st2
+		}, Keys: keys, Complete: true, Typed: true})
 	}
 	// 5. loaded from 0.5.10 allpref (prefix re-encoding path)
 	{
@@ -104,22 +116,26 @@ func Instances(seed int64, thorough bool) []*Instance {
 			bv[i] = le32(uint32(200 + i))
 		}
 		stream := legacy.Flavours0510["allpref"].Stream("0.5.10", keys, bv)
-		st, _ := trie.NewSlimTrie(encode.I32{}, nil, nil)
-		if err := st.Unmarshal(stream); err != nil {
-			panic(err)
-		}
-		out = append(out, &Instance{Name: "loaded-0.5.10-allpref", ST: st, Keys: keys, Complete: true, Typed: true, Small: true})
+		add(&Instance{Name: "loaded-0.5.10-allpref", Make: func() *trie.SlimTrie {
+			st, _ := trie.NewSlimTrie(encode.I32{}, nil, nil)
+			if err := st.Unmarshal(append([]byte{}, stream...)); err != nil {
+				panic(err)
+			}
+			return st
+		}, Keys: keys, Complete: true, Typed: true, Small: true})
 		// 6. loaded from 0.5.9 (rebuild path)
 		vals := make([]uint32, len(keys))
 		for i := range vals {
 			vals[i] = uint32(300 + i)
 		}
 		old, _ := legacy.WriteOld(keys, vals, legacy.FlavourOf("0.5.9"))
-		st3, _ := trie.NewSlimTrie(encode.I32{}, nil, nil)
-		if err := st3.Unmarshal(old); err != nil {
-			panic(err)
-		}
-		out = append(out, &Instance{Name: "loaded-0.5.9", ST: st3, Keys: keys, Typed: true, Small: true})
+		add(&Instance{Name: "loaded-0.5.9", Make: func() *trie.SlimTrie {
+			st3, _ := trie.NewSlimTrie(encode.I32{}, nil, nil)
+			if err := st3.Unmarshal(append([]byte{}, old...)); err != nil {
+				panic(err)
+			}
+			return st3
+		}, Keys: keys, Typed: true, Small: true})
 	}
 	return out
 }
@@ -157,6 +173,17 @@ func OpsFor(in *Instance, thorough bool) []Op {
 		add("GetI32(k2)", false, func(st *trie.SlimTrie) string { v, f := st.GetI32(k2); return fmt.Sprint(v, f) })
 	}
 	add("Stat", false, func(st *trie.SlimTrie) string { return fmt.Sprintf("%+v", *st.Stat()) })
+	add("Stat+overwrite-result", false, func(st *trie.SlimTrie) string {
+		// the returned report belongs to the caller, who may do with it what it wants
+		s := st.Stat()
+		res := fmt.Sprintf("%+v", *s)
+		s.KeyCnt, s.NodeCnt, s.LevelCnt = -1, -1, -1
+		for i := range s.Levels {
+			s.Levels[i].Total = -7
+		}
+		s.Levels = s.Levels[:0]
+		return res
+	})
 	if in.Complete {
 		scanLimit := 3
 		if thorough {
@@ -193,7 +220,7 @@ func OpsFor(in *Instance, thorough bool) []Op {
 			return sb.String()
 		})
 	}
-	if in.Small || thorough {
+	if in.Small {
 		add("String", true, func(st *trie.SlimTrie) string { return sha([]byte(st.String())) })
 		add("Marshal", true, func(st *trie.SlimTrie) string {
 			b, err := st.Marshal()
@@ -262,7 +289,7 @@ func Specs(insts []*Instance, thorough bool) []ScenarioSpec {
 }
 
 // Build makes the executable scenario of a spec.
-func Build(insts []*Instance, sp ScenarioSpec, thorough bool) *sched.Scenario {
+func Build(insts []*Instance, sp ScenarioSpec, thorough bool, cold bool) *sched.Scenario {
 	in := insts[sp.Inst]
 	ops := OpsFor(in, thorough)
 	sc := &sched.Scenario{}
@@ -271,24 +298,65 @@ func Build(insts []*Instance, sp ScenarioSpec, thorough bool) *sched.Scenario {
 		names = append(names, ops[oi].Name)
 	}
 	sc.Name = in.Name + ": " + strings.Join(names, " || ")
+	if !cold {
+		sc.Name += " (warm)"
+	}
 	sc.Ops = names
-	sc.Mk = func() []*sched.Thread {
-		var ths []*sched.Thread
-		for i, oi := range sp.Ops {
-			body := ops[oi].Body
-			ths = append(ths, &sched.Thread{ID: i, Body: func() string { return body(in.ST) }})
+	var mw *h.MemWatch
+	roots := func(st *trie.SlimTrie) []interface{} {
+		r := []interface{}{st}
+		if GlobalsFn != nil {
+			r = append(r, GlobalsFn()...)
 		}
-		return ths
+		return r
 	}
-	for _, oi := range sp.Ops {
-		sc.Solo = append(sc.Solo, safeRun(func() string { return ops[oi].Body(in.ST) }))
+	if cold {
+		// every execution gets a new, never-read instance and its own memory watch
+		sc.Mk = func() []*sched.Thread {
+			st := in.Make()
+			mw = h.NewMemWatch(roots(st)...)
+			var ths []*sched.Thread
+			for i, oi := range sp.Ops {
+				body := ops[oi].Body
+				ths = append(ths, &sched.Thread{ID: i, Body: func() string { return body(st) }})
+			}
+			return ths
+		}
+		for _, oi := range sp.Ops {
+			body := ops[oi].Body
+			sc.Solo = append(sc.Solo, safeRun(func() string { return body(in.Make()) }))
+		}
+		sc.Changed = func() bool { return mw != nil && mw.Changed() }
+	} else {
+		// every execution gets a new instance on which each operation of the
+		// scenario has already run once, alone (outside the scheduler): state that
+		// reads compute lazily is populated when the threads start.  A new
+		// instance per execution keeps executions independent of each other, so
+		// every schedule replays.
+		warmed := func() *trie.SlimTrie {
+			st := in.Make()
+			for _, oi := range sp.Ops {
+				body := ops[oi].Body
+				safeRun(func() string { return body(st) })
+			}
+			return st
+		}
+		sc.Mk = func() []*sched.Thread {
+			st := warmed()
+			mw = h.NewMemWatch(roots(st)...)
+			var ths []*sched.Thread
+			for i, oi := range sp.Ops {
+				body := ops[oi].Body
+				ths = append(ths, &sched.Thread{ID: i, Body: func() string { return body(st) }})
+			}
+			return ths
+		}
+		for _, oi := range sp.Ops {
+			body := ops[oi].Body
+			sc.Solo = append(sc.Solo, safeRun(func() string { return body(warmed()) }))
+		}
+		sc.Changed = func() bool { return mw != nil && mw.Changed() }
 	}
-	roots := []interface{}{in.ST}
-	if GlobalsFn != nil {
-		roots = append(roots, GlobalsFn()...)
-	}
-	mw := h.NewMemWatch(roots...)
-	sc.Changed = mw.Changed
 	sc.CacheOK = true
 	return sc
 }
